@@ -1,6 +1,7 @@
 import Proofs.BatchLemmas
 import Proofs.Holding
 import Proofs.ExecOnce
+import Proofs.HoldOnce
 import Proofs.Process
 /-
   C06 — At-most-once execution of an entry (replay protection).
@@ -195,6 +196,12 @@ example :
      | .fail _ _ => []) = ["e1"] := by
   decide
 
+/-- **An entry is placed in holding at most once**, along every chain: the holding table never has
+    two rows of one entry hash (so the window of a block meets a held entry once). -/
+theorem held_at_most_once (P : Params) (chain : List Block) :
+    ((runBlocks P (freshNode P) chain).db.holding.map (·.entry.hash)).Nodup :=
+  runBlocks_holdNodup P _ chain List.nodup_nil
+
 end Pegnet.C06
 
 #print axioms Pegnet.C06.execution_marks_entry
@@ -209,3 +216,4 @@ end Pegnet.C06
 #print axioms Pegnet.C06.executed_at_most_once_count
 #print axioms Pegnet.C06.executed_is_marked
 #print axioms Pegnet.C06.executed_at_most_once_process
+#print axioms Pegnet.C06.held_at_most_once
